@@ -10,11 +10,11 @@
                               fiber (Z -> A)-cable_west  for every Links row;  west/east edfa in c  for every ILA
                               site without Eqpt row;  east/west edfa in A to Z  for every Eqpt row
      render                   the byte string of a uid (the f-strings of convert.py)
-     wellformed w             site names contain none of ' ' ')' '|';  no link from a site to itself;  FUSED sites
-                              have degree 2 and no Eqpt row.  The last three exclude regions where convert.py neither
-                              rejects nor converts properly (open findings, see the *_refuted theorems)
-     sane ns ls es            the eight documented sanity rules, as propositions (Proofs/Sheet.v)
-     violation ns ls es       one of the eight rules is broken (Proofs/Sheet7.v)
+     wellformed w             site names contain none of ' ' ')' '|';  FUSED sites have no Eqpt row.  The latter
+                              excludes the region where convert.py neither rejects nor converts properly (open
+                              finding C20-eqpt-on-fused, see C20_eqpt_on_fused_refuted)
+     sane ns ls es            the ten sanity rules, as propositions (Proofs/Sheet.v)
+     violation ns ls es       one of the ten rules is broken (Proofs/Sheet7.v)
      is_line u                u is a fibre, an amplifier or a fused element
      one_succ cs u / one_pred cs u   u has exactly one successor / predecessor in the connection list cs *)
 From Coq Require Import QArith.
@@ -77,31 +77,15 @@ Theorem C20_accepted_is_sane : forall w n, convert w = Ok n -> sane (nodes_of w)
 Proof. exact accepted_is_sane. Qed.
 Print Assumptions C20_accepted_is_sane.
 
-(* every rejection is one of the eight documented rules - or, outside them, the IndexError of a FUSED site of degree
-   < 2 (open finding) or the arithmetic error of a PMD value on a length <= 0; the KeyError / StopIteration places of
-   convert.py are unreachable *)
+(* every rejection is one of the ten sanity rules, or the arithmetic error of a PMD value on a length <= 0; the
+   KeyError / StopIteration / IndexError places of convert.py are unreachable *)
 Theorem C20_convert_errors : forall w e, convert w = Err e ->
-  (exists r, In r rules /\ e = topo_err r) \/
-  (In e build_errors /\
-   (e = "IndexError:site_degree"%string ->
-    exists n, In n (nodes_of w) /\ n_type n = TFused /\ (length (links_of (n_city n) (links_of_w w)) < 2)%nat)).
+  (exists r, In r rules /\ e = topo_err r) \/ e = "ZeroDivisionError:pmd"%string \/ e = "ValueError:pmd"%string.
 Proof. exact convert_errors. Qed.
 Print Assumptions C20_convert_errors.
 
-(* ---- the full statement without the `wellformed` guard is false of the faithful model: witnesses (replayed on
-        gnpy by the harness: corpus/C20/f20a..d) ---- *)
-Theorem C20_self_loop_refuted : exists n, convert w_self_loop = Ok n /\ ~ NoDup (names n).
-Proof. exact self_loop_refuted. Qed.
-Print Assumptions C20_self_loop_refuted.
-Theorem C20_fused_degree_1_refuted :
-  sane (nodes_of w_fused_1) (links_of_w w_fused_1) (eqpts_of_w w_fused_1) /\
-  convert w_fused_1 = Err "IndexError:site_degree"%string.
-Proof. exact fused_degree_1_refuted. Qed.
-Print Assumptions C20_fused_degree_1_refuted.
-Theorem C20_fused_degree_3_refuted : exists n, convert w_fused_3 = Ok n /\
-  In (UFiber "C" "F" "") (uids n) /\ forall v, ~ In (UFiber "C" "F" "", v) (connections n).
-Proof. exact fused_degree_3_refuted. Qed.
-Print Assumptions C20_fused_degree_3_refuted.
+(* ---- the full statement without the `wellformed` guard is false of the faithful model: witness (replayed on
+        gnpy by the harness: corpus/C20/f20d) ---- *)
 Theorem C20_eqpt_on_fused_refuted : exists n, convert w_eqpt_on_fused = Ok n /\
   In (UEdfaTo East "F" "B") (uids n) /\
   forall a b, In (a, b) (connections n) -> a <> UEdfaTo East "F" "B" /\ b <> UEdfaTo East "F" "B".
@@ -172,9 +156,8 @@ Example ex_wellformed : wellformed ex_w.
 Proof.
   constructor.
   - intros c H. vm_compute in H. repeat (destruct H as [H|H]; [subst c; reflexivity|]). destruct H.
-  - intros l H. vm_compute in H. repeat (destruct H as [H|H]; [subst l; vm_compute; discriminate|]). destruct H.
   - intros n H T. vm_compute in H.
-    repeat (destruct H as [H|H]; [subst n; try discriminate T; split; vm_compute; reflexivity|]). destruct H.
+    repeat (destruct H as [H|H]; [subst n; try discriminate T; vm_compute; reflexivity|]). destruct H.
 Qed.
 Example ex_converts : exists n, convert ex_w = Ok n /\ length (elements n) = 28%nat /\ length (connections n) = 36%nat.
 Proof. eexists. split; [vm_compute; reflexivity|]. split; reflexivity. Qed.
